@@ -52,6 +52,8 @@ func init() {
 func runC08(c *Ctx, r *Report) {
 	r.Rule("C08/rpc-no-consume", "sendRPC and what it calls never take output out of the channel's queue: the NETCONF reader is the only consumer", 1)
 	checkRPCDoesNotConsume(c, r, "C08/rpc-no-consume")
+	r.Rule("C08/no-shared-defaults", "no constructor copies maps or lock pointers out of a package-level value (each driver has its own reply store)", 1)
+	checkNoSharedDefaults(c, r, "C08/no-shared-defaults")
 	importFoundation(c, r, "C08", "netconf-reader-lifecycle")
 	r.Rule("C08/operation-constructed", "every rpc is sent with operation options built by NewOperation (a zero-value struct has Timeout 0 = maximum: a call whose reply never comes would not return)", 4)
 	checkOperationConstructed(c, r, "C08/operation-constructed")
@@ -337,6 +339,14 @@ func runC08(c *Ctx, r *Report) {
 						okKey = fs.Call.Args[1] == buf
 						if f, _, isLoad := fieldLoad(fs.Call.Args[0]); !isLoad || f.Name() != "messageID" {
 							okKey = false
+						}
+						// a constant edge into the key (no id) is chosen by conditions over this match only
+						if ok, pos := keyDecidedByOwnMatchOnly(key, func(v ssa.Value) bool {
+							cl, isCl := v.(*ssa.Call)
+							return isCl && (cl == fs || cl == idCall)
+						}); !ok {
+							okKey = false
+							r.Bad("C08/own-id", "reader's filing key depends on the message-id match only", c.Pos(pos), "whether the buffer is filed under the message-id found in it is also decided by something else in the message (a subscription id, a stored-state lookup): a reply that carries such content is dropped or filed as something else, and the caller of that request waits for ever")
 						}
 					}
 				}
